@@ -1309,6 +1309,11 @@ let net_counts n0 =
     (list_sum (map (fun p -> count is_range (all_stmts p)) n0.procs_of)) :: []))))
     n0.caps
 
+(** val wg_bufInitWG : wgid **)
+
+let wg_bufInitWG =
+  O
+
 (** val ch_send_sendFileDataV2_0 : chan **)
 
 let ch_send_sendFileDataV2_0 =
@@ -1334,20 +1339,15 @@ let ch_send_CalculateMD5_0 =
 let ch_send_EncodeData_0 =
   S (S (S (S O)))
 
-(** val ch_send_transfer_bufInitCh : chan **)
-
-let ch_send_transfer_bufInitCh =
-  S (S (S (S (S O))))
-
 (** val ch_send_SendData_0 : chan **)
 
 let ch_send_SendData_0 =
-  S (S (S (S (S (S O)))))
+  S (S (S (S (S O))))
 
 (** val ch_send_RecvAck_0 : chan **)
 
 let ch_send_RecvAck_0 =
-  S (S (S (S (S (S (S O))))))
+  S (S (S (S (S (S O)))))
 
 (** val p_send_CalculateMD5 : pid **)
 
@@ -1409,27 +1409,26 @@ let send_CalculateMD5_proc =
 let send_EncodeData_body =
   (Branch ((Cancel :: (Return :: [])), [])) :: ((LoopRange
     (ch_send_ReadData_0, ((LoopData ((LoopData ((Branch ([], ((Branch ([],
-    ((Sel (((SendAlt ch_send_EncodeData_0), []) :: ((DoneAlt,
-    []) :: []))) :: ((Branch ([], ((Branch (((Sel (((RecvAlt
-    ch_send_transfer_bufInitCh), []) :: ((DoneAlt, []) :: []))) :: []),
-    [])) :: []))) :: [])))) :: []))) :: [])) :: [])) :: ((Branch
+    ((Branch (((WgAdd wg_bufInitWG) :: []), [])) :: ((Sel (((SendAlt
+    ch_send_EncodeData_0), []) :: ((DoneAlt, []) :: []))) :: ((Branch ([],
+    ((Branch (((WgWait wg_bufInitWG) :: []),
+    [])) :: []))) :: []))))) :: []))) :: [])) :: [])) :: ((Branch
     ((Cancel :: (Return :: [])), [])) :: ((Branch (((LoopData ((LoopData
-    ((Branch ([], ((Branch ([], ((Sel (((SendAlt ch_send_EncodeData_0),
-    []) :: ((DoneAlt, []) :: []))) :: ((Branch ([], ((Branch (((Sel
-    (((RecvAlt ch_send_transfer_bufInitCh), []) :: ((DoneAlt,
-    []) :: []))) :: []),
-    [])) :: []))) :: [])))) :: []))) :: [])) :: [])) :: ((Branch
+    ((Branch ([], ((Branch ([], ((Branch (((WgAdd wg_bufInitWG) :: []),
+    [])) :: ((Sel (((SendAlt ch_send_EncodeData_0), []) :: ((DoneAlt,
+    []) :: []))) :: ((Branch ([], ((Branch (((WgWait wg_bufInitWG) :: []),
+    [])) :: []))) :: []))))) :: []))) :: [])) :: [])) :: ((Branch
     ((Cancel :: (Return :: [])), [])) :: [])),
     [])) :: (IfCtxExit :: [])))))) :: [])
 
 (** val send_EncodeData_finally : stmt list **)
 
 let send_EncodeData_finally =
-  (LoopData ((LoopData ((Branch ([], ((Branch ([], ((Sel (((SendAlt
-    ch_send_EncodeData_0), []) :: ((DoneAlt, []) :: []))) :: ((Branch ([],
-    ((Branch (((Sel (((RecvAlt ch_send_transfer_bufInitCh), []) :: ((DoneAlt,
-    []) :: []))) :: []),
-    [])) :: []))) :: [])))) :: []))) :: [])) :: [])) :: ((Branch (((Sel
+  (LoopData ((LoopData ((Branch ([], ((Branch ([], ((Branch (((WgAdd
+    wg_bufInitWG) :: []), [])) :: ((Sel (((SendAlt ch_send_EncodeData_0),
+    []) :: ((DoneAlt, []) :: []))) :: ((Branch ([], ((Branch (((WgWait
+    wg_bufInitWG) :: []),
+    [])) :: []))) :: []))))) :: []))) :: [])) :: [])) :: ((Branch (((Sel
     (((SendAlt ch_send_EncodeData_0), []) :: ((DoneAlt,
     []) :: []))) :: ((Branch ([], ((Sel (((SendAlt ch_send_EncodeData_0),
     []) :: ((DoneAlt, []) :: []))) :: []))) :: [])), ((Sel (((SendAlt
@@ -1473,10 +1472,9 @@ let send_RecvAck_body =
     ((Cancel :: (Return :: [])), [])) :: ((Branch
     ((Cancel :: (Return :: [])), [])) :: ((Branch (((Sel (((SendAlt
     ch_send_RecvAck_0), []) :: ((DoneAlt, (Return :: [])) :: []))) :: []),
-    [])) :: ((Branch (((Branch (((Branch (((Sel (((SendAlt
-    ch_send_transfer_bufInitCh), []) :: ((DefaultAlt, []) :: []))) :: []),
-    [])) :: []), ((Branch (((Sel (((SendAlt ch_send_transfer_bufInitCh),
-    []) :: ((DefaultAlt, []) :: []))) :: []), [])) :: []))) :: []),
+    [])) :: ((Branch (((Branch (((Branch (((WgDone wg_bufInitWG) :: []),
+    [])) :: []), ((Branch (((WgDone wg_bufInitWG) :: []),
+    [])) :: []))) :: []),
     [])) :: (IfCtxExit :: [])))))))) :: (IfCtxExit :: ((LoopCtx ((Io
     RecvLine) :: ((Branch ((Cancel :: (Return :: [])), [])) :: ((Branch
     ((Cancel :: (Return :: [])), [])) :: ((Branch
@@ -1549,15 +1547,14 @@ let send_net =
     (S (S (S (S (S (S (S (S (S (S (S (S (S (S (S (S (S (S (S (S (S (S (S (S
     (S (S (S
     O)))))))))))))))))))))))))))))))))))))))))))))))))))))))))))))))))))))))))))))))))))))))))))))))))))) :: ((S
-    O) :: ((S (S (S (S (S O))))) :: ((S O) :: ((S (S (S (S (S O))))) :: ((S
+    O) :: ((S (S (S (S (S O))))) :: ((S (S (S (S (S O))))) :: ((S (S (S (S (S
     (S (S (S (S (S (S (S (S (S (S (S (S (S (S (S (S (S (S (S (S (S (S (S (S
     (S (S (S (S (S (S (S (S (S (S (S (S (S (S (S (S (S (S (S (S (S (S (S (S
     (S (S (S (S (S (S (S (S (S (S (S (S (S (S (S (S (S (S (S (S (S (S (S (S
-    (S (S (S (S (S (S (S (S (S (S (S (S (S (S (S (S (S (S (S (S (S (S (S (S
-    (S (S (S
-    O)))))))))))))))))))))))))))))))))))))))))))))))))))))))))))))))))))))))))))))))))))))))))))))))))))) :: []))))))));
+    (S (S (S (S (S (S (S (S (S (S (S (S (S (S (S (S (S (S (S (S (S (S (S
+    O)))))))))))))))))))))))))))))))))))))))))))))))))))))))))))))))))))))))))))))))))))))))))))))))))))) :: [])))))));
     senders = ((Some p_send_RecvAck) :: (None :: (None :: ((Some
-    p_send_CalculateMD5) :: (None :: (None :: (None :: (None :: [])))))))) }
+    p_send_CalculateMD5) :: (None :: (None :: (None :: []))))))) }
 
 (** val ch_recv_recvFileDataV2_0 : chan **)
 
